@@ -28,6 +28,10 @@ def ld_frac(x):
         return Fraction(float(x))
 
 
+# set by the checks to a common.Runner("c02"): the Coq model of inf_retis then supplies the P of every step
+PERM_RUNNER = None
+_PERM_CACHE = {}
+
 # ------------------------------------------------------------------ exact P (permanent ratios)
 
 
@@ -300,6 +304,22 @@ def derive_op(op, problems):
     if Pex is None:
         problems.append("idle block has no perfect matching at credit time (permanent is zero)")
         return None
+    if PERM_RUNNER is not None and len(ps["W"]) <= 10:
+        # the P handed to the acceptor is the one the Coq model of inf_retis (model/PermM.v) computes;
+        # the exact permanent ratios computed here in Python must agree with it
+        Wm = ";".join(",".join(str(int(x)) for x in r) for r in ps["W"])
+        req = f"inf 1 {Wm} {''.join(str(int(x)) for x in ps['locks'])}"
+        if req not in _PERM_CACHE:
+            _PERM_CACHE[req] = PERM_RUNNER.run([req])[0]
+        ans = _PERM_CACHE[req]
+        if ans == "N":
+            problems.append("the Coq model of inf_retis trips its own assertion (row/column sums) on the recorded weight matrix")
+            return None
+        Pm = [[Fraction(x) for x in r.split(",")] for r in ans.split(";")]
+        if Pm != Pex:
+            problems.append(f"Coq model of inf_retis differs from the exact permanent ratios on W={ps['W']} locks={ps['locks']}")
+            return None
+        op["P_from_coq_model"] = True
     Pstr = "+".join(",".join(f"{q.numerator}/{q.denominator}" for q in r) for r in Pex)
     op["P_exact"] = Pex
     return f"T:{k}:{acc}:{rows}:{Pstr}"
